@@ -26,9 +26,13 @@ type pathLine struct {
 		Bsp   int      `json:"bsp"`
 	} `json:"norm"`
 	R struct {
-		OK   bool     `json:"ok"`
-		Path []string `json:"path"`
+		OK    bool     `json:"ok"`
+		Path  []string `json:"path"`
+		IsAbs bool     `json:"isabs"`
+		Steps []string `json:"steps"`
 	} `json:"r"`
+	Abs   bool     `json:"abs"`
+	Comps []string `json:"comps"`
 }
 
 func canonPath(c []string) string { return "/" + strings.Join(c, "/") }
@@ -98,6 +102,20 @@ func PathEngine(args []string) {
 					res.Violate("C16", "walkname-accept", fmt.Sprintf("WalkName(%q, %q): err=%v, specification accepts=%v", dir, l.Names, err, l.R.OK), rep)
 				} else if err == nil && got != canonPath(l.R.Path) {
 					res.Violate("C16", "walkname-result", fmt.Sprintf("WalkName(%q, %q) = %q, stepwise resolution gives %q", dir, l.Names, got, canonPath(l.R.Path)), rep)
+				}
+			case "towalk":
+				ps := strings.Join(l.Comps, "/")
+				if l.Abs {
+					ps = "/" + ps
+				}
+				isAbs, steps, err := p9p.ToWalk(nil, ps)
+				switch {
+				case isAbs != l.R.IsAbs:
+					res.Violate("C16", "towalk-isabs", fmt.Sprintf("ToWalk(%q): isAbs=%v, the path %s with \"/\"", ps, isAbs, map[bool]string{true: "starts", false: "does not start"}[l.R.IsAbs]), rep)
+				case (err == nil) != l.R.OK:
+					res.Violate("C16", "towalk-accept", fmt.Sprintf("ToWalk(%q): err=%v, specification accepts=%v", ps, err, l.R.OK), rep)
+				case err == nil && !(len(steps) == 0 && len(l.R.Steps) == 0) && !reflect.DeepEqual(steps, l.R.Steps):
+					res.Violate("C16", "towalk-steps", fmt.Sprintf("ToWalk(%q) = %q, normalisation of its components gives %q", ps, steps, l.R.Steps), rep)
 				}
 			case "create":
 				dir := canonPath(l.Dir)
